@@ -265,6 +265,47 @@ def run_hosts(ctx, tier):
     return n
 
 
+def run_raw_paths(ctx):
+    """WSGI hands the path over as bytes-in-Latin-1: paths that are UTF-8 only in part must still be matched prefix by prefix
+    (byte sequences compared as bytes), and SCRIPT_NAME + PATH_INFO must stay the request path"""
+    import baize.wsgi as W
+    seen = {}
+
+    def leaf(name):
+        def app(environ, start_response):
+            seen["hit"] = (name, environ.get("SCRIPT_NAME", ""), environ.get("PATH_INFO", ""))
+            return W.PlainTextResponse(name)(environ, start_response)
+        return app
+    e_acute = "\u00e9".encode("utf-8").decode("latin-1")       # the native string of "é"
+    cases = [  # (mounts, raw PATH_INFO, expected (leaf, SCRIPT_NAME, PATH_INFO) or None for 404)
+        ([("/\u00e9", "A"), ("/" + e_acute, "B")], "/" + e_acute + "/\xff", ("A", "/" + e_acute, "/\xff")),
+        ([("/\u00e9", "A"), ("/" + e_acute, "B")], "/" + e_acute + "/x", ("A", "/" + e_acute, "/x")),
+        ([("/\u00e9", "A")], "/" + e_acute + "/\xff\xfe", ("A", "/" + e_acute, "/\xff\xfe")),
+        ([("/\u00e9", "A")], "/\xe9/\xe9", None),             # the byte E9 alone is not the UTF-8 of é
+        ([("/\u00e9", "A"), ("", "D")], "/\xe9", ("D", "", "/\xe9")),
+        ([("/a", "A")], "/a/\xff", ("A", "/a", "/\xff")),
+        ([("/a", "A"), ("", "D")], "/\xff/a", ("D", "", "/\xff/a")),
+    ]
+    for mounts, raw, want in cases:
+        app = W.Subpaths(*[(p, leaf(n)) for p, n in mounts])
+        env = servers.make_environ(servers.Req(path="/"))
+        env["PATH_INFO"] = raw
+        seen.clear()
+        r = servers.wsgi_call(app, env)
+        ctx.count()
+        got = seen.get("hit")
+        from baize.exceptions import HTTPException
+        status = r.exc.status_code if isinstance(r.exc, HTTPException) else (r.status if r.exc is None else "exc:" + type(r.exc).__name__)
+        case = {"iface": "wsgi", "mounts": [p for p, _ in mounts], "raw_path_info": raw}
+        if want is None:
+            if got is not None or status != 404:
+                ctx.violation(case, 404, {"dispatched": got, "status": status}, "mount dispatch differs from the statement (path that is UTF-8 only in part)")
+        elif got != want:
+            ctx.violation(case, {"leaf": want[0], "SCRIPT_NAME": want[1], "PATH_INFO": want[2]}, {"dispatched": got, "status": status},
+                          "mount dispatch differs from the statement (path that is UTF-8 only in part)")
+        ctx.nontriv(("rawpath", raw))
+
+
 def run(ctx):
     ctx.rule = ("every behaviour of Mount.tla / Hosts.tla (mount tree x path x initial root; host table x Host value) is "
                 "replayed on real Subpaths/Hosts on WSGI and ASGI; non-trivial = nested descent, overlapping prefixes "
@@ -273,6 +314,7 @@ def run(ctx):
                        "token-level host matching equals character-level matching for the token set used (checked by replay)"]
     nm = run_mount(ctx, ctx.tier)
     nh = run_hosts(ctx, ctx.tier)
+    run_raw_paths(ctx)
     ctx.bounds = {"mount_behaviours": nm, "host_behaviours": nh, "nesting_depth": 3}
     ctx.exhaustive = True
 
